@@ -347,6 +347,9 @@ impl FilePersist {
             return Err(e.into());
         }
 
+        // Make the rename durable before dependent steps (WAL truncation) run
+        sync_directory(&dir);
+
         Ok(())
     }
 
@@ -769,6 +772,11 @@ fn write_updates_parquet(path: &PathBuf, updates: &[Update]) -> StorageResult<()
 
     // Atomic rename (POSIX guarantees atomicity)
     fs::rename(&tmp_path, path)?;
+
+    // Make the rename durable before the metadata that references it is written
+    if let Some(parent) = path.parent() {
+        sync_directory(parent);
+    }
 
     Ok(())
 }
